@@ -41,6 +41,10 @@ def run(ctx):
     c04.special_names(ctx, "C05.R9", core)
     P.R7_validate_then_emit(ctx, "C05.R7", cli)
     P.R8_binders(ctx, "C05.R8", core)
+    # what the capture analysis misses is never substituted into the emitted source: the analysis is decided here as well
+    from rules import c04
+    ctx.rule("C05.R11", "the capture analysis finds every name the function body reads: same positions as the evaluator's reads, every expression child visited, binder arms work on a copy of the bound set (a parameter of an inner function must not hide a later free occurrence of the same name: it would stay a bare, unbound name in the emitted source)", floor=8)
+    c04.free_variable_rule(ctx, "C05.R11", core)
     # L8: the reserved function-object key
     ctx.rule("C05.L8", "the function-object key probed by from_json and inserted by to_json is one literal", floor=3)
     from lib import hir as H
